@@ -76,6 +76,13 @@ def families(tier):
                             params=dict(first_b='main', par_a=True, par_b=par_b),
                             scn=dict(buses={'A': dict(parallel=True), 'B': dict(parallel=par_b)}, order=o, handlers=hs,
                                      main=[('disp', 'B', 'X', 'await'), ('disp', 'A', 'P', 'ff')], actors=[], forwards=[], settle=3.0)))
+    # the same one level down: a single handler awaits a child whose TWO handlers (parallel bus) each await a grandchild
+    for gb1, gb2, o in itertools.product('AB', 'AB', (['A', 'B'], ['B', 'A'])):
+        hs = [dict(bus='A', pat='P', name='hp', prog=[('disp', 'A', 'C', 'await'), ('pause',)]),
+              dict(bus='A', pat='C', name='hc1', prog=[('disp', gb1, 'G', 'await')]), dict(bus='A', pat='C', name='hc2', prog=[('pause',), ('disp', gb2, 'Q', 'await')]),
+              dict(bus=gb1, pat='G', name='hg', prog=[('pause',)]), dict(bus=gb2, pat='Q', name='hq', prog=[('pause',)])]
+        out.append(dict(prop='C06', family='c06.mutex.parallel_siblings', id=f'c06/sib2-{gb1}{gb2}-o{"".join(o)}', cfg=cfg, params=dict(first_b='main', par_a=True, par_b=False),
+                        scn=dict(buses={'A': dict(parallel=True), 'B': {}}, order=o, handlers=hs, main=[('disp', 'B', 'X', 'await'), ('disp', 'A', 'P', 'ff')], actors=[], forwards=[], settle=3.0)))
     # three buses: a chain of first uses inside handlers
     for pshape, o in itertools.product(['ff', 'aw'], itertools.permutations('ABC')):
         if not deep and o not in (('A', 'B', 'C'), ('C', 'B', 'A')):
